@@ -135,6 +135,21 @@ PROPS["C09"] = {
         "level_note": "Trusted: Lean kernel; sort.Sort's contract (sorted permutation); strconv/fmt/strings behaviour as modelled and validated; harness/driver. Values after decoding rely on C01 (observed here, proved there).",
     }
 
+PROPS["C18"] = {
+        "suites": [{"name": "params", "timeout": 1500}, {"name": "params-facts", "model": False}],
+        "rule": "params suite: (0) every exported validator of Validators.go called directly on ~85 probe values of every TOML-expressible type, the two general bounded validators with random (also reversed/NaN/infinite) bounds and values at bound +- 1 ulp / +- 1; (1) for each of the 9 components (annealer, 2 explorers, 3 coolants, catchment, dumb, multi-objective dumb) the live specification table is extracted (validator identity -> kind, default + dynamic type, optional flag) and its well-formedness hypotheses are evaluated by the driver (HYP lines); every specified key and 6-7 unknown keys x every probe value (int64/float64 boundaries, bounds +- 1 ulp, +-0, MaxInt64, MaxFloat64, subnormals, NaN/Inf, strings incl. empty/readable/unreadable/directory paths, bools, arrays, tables, datetime), alone, through SetParameters and through both raw assignment loops; (2) random combinations and sequences of 1-4 user maps (structured mostly-valid values + malformed ones + unknown keys). Compared with the model on every line: validator verdicts, error-class counts (invalid/unsupported/message, cumulative), resulting maps (sorted by key, floats as bit patterns), typed-getter results (value or panic) for all four getters, HasEntry. The property's clauses are also evaluated directly on the implementation after every SetParameters (valid replaces, invalid leaves + one error, unsupported reported/ignored by mode, nothing else changes, stored entries satisfy their validators). Every error-free component instance is then USED (initialised and run briefly; catchment on the shipped CSV data set; resource-hungry cases in a watchdogged child process) and any panic / late error is reported with the smallest responsible set of accepted values. params-facts: go/ast extraction of all 49 typed-getter call sites (key constant -> live table: declared type matches, non-optional or inside `if HasEntry(key)`). one evaluation = one protocol line; distinct non-trivial = distinct (component, assign mode, key or unknown, dynamic type of the value, verdict) combinations reached by a validate/set/vdirect, plus distinct checked call sites.",
+        "trusted": [
+            "float64 ordering is modelled on bit patterns (F64.lt: NaN unordered, -0 = +0); that this is Go's < on float64 is validated by the validator verdicts on boundary values +- 1 ulp, not proved from an IEEE-754 formalisation",
+            "IsReadableFile's answer is an oracle (Env.readable) supplied by the harness per string (os.Open); the file system is assumed not to change between validation and use",
+            "validators are identified by function identity (exported) or symbol name (the two private ones); their bounds are the model's transcription, the bank-erosion bounds are recomputed in the harness from the documented expressions",
+            "the go/ast fact `every typed getter call site reads a key of that declared type, non-optional or guarded by HasEntry` is extracted by `harness params-facts` (go/parser over the repo sources) on every run",
+        ],
+        "assumptions": ["values are TOML-expressible (int64, float64, string, bool, array, table, datetime); NaN/Inf and nil are modelled for totality but BurntSushi/toml v0.3.1 cannot produce them",
+                        "user maps have distinct keys (they are Go maps)"],
+        "level_text": "Unbounded proof: for any specification table that passes the decidable SpecsWellFormed check, after ANY sequence of SetParameters calls with ANY user maps every stored entry satisfies its validator (type and range), every non-optional key is present, and the typed getter of the declared type cannot fail (well_typed_invariant, getter_total, no_later_type_failure, no_later_range_failure); a valid value replaces the default, an invalid one leaves it and adds exactly one error, unsupported keys are reported by AssignAllUserValues and ignored by AssignOnlyEnforcedUserValues, and the result does not depend on Go's map iteration order (assign_sound_*, assignAll_sound, assignEnforced_sound, assignAll_order_independent). SpecsWellFormed is evaluated on every component's table extracted from the running code; the model is tied to the Go code by the params differential suite on every check.",
+        "level_note": "The theorems bound failures to the ranges the specifications STATE. Whether those ranges are tight enough for the code that consumes them (YearsOfErosion = 0, unbounded decimals, NumberOfPlanningUnits = 0) is outside the model and is searched for by actually running every error-free component; those are reported as direct failures.",
+    }
+
 # properties not (yet) claimed, with the reason; kept current as checks are added
 NOT_APPLICABLE = {
 }
